@@ -258,16 +258,21 @@ def run_stream(ctx, monitor):
         r = random.Random(f"C07:pool:{ctx.seed}")
         rest = [k for k in allk if k not in must]
         r.shuffle(rest)
-        names = set(k for k in allk if k in must) | set(rest[:ctx.scale(14, len(rest))])
+        names = set(k for k in allk if k in must) | set(rest[:ctx.scale(14, 30)])
+    cap = os.environ.get("VERIF_C07_PROGRAMS")      # debugging knob: run on at most N pool programs
+    if cap:
+        allk = sorted(names if names is not None else pool.POOL)
+        random.Random(f"C07:cap:{ctx.seed}").shuffle(allk)
+        names = set(allk[:int(cap)])
     opts = {"depth": ctx.scale(1, 2), "depth2_attempts": 30, "depth2_procs": 5,
             "pure_sample": ctx.scale(3, 5), "pure_ccode": ctx.scale(2, 5), "pure_query_every": ctx.scale(60, 40),
-            "pure_monitor_every": ctx.scale(5, 3), "pure_cursors": 16, "pure_ccode_queries": 1,
+            "pure_monitor_every": ctx.scale(5, 4), "pure_cursors": 16, "pure_ccode_queries": 1,
             "pure_monitor": monitor, "pure_caches": monitor.get("caches", [])}
     jobs = []
     rng = random.Random(f"stream:{ctx.seed}")
     items = [(k, v) for k, v in sorted(pool.POOL.items()) if names is None or k in names]
     for (k, src) in items:
-        for vi, s in enumerate(sched_run.variants(src, rng, ctx.scale(1, 2))):
+        for vi, s in enumerate(sched_run.variants(src, rng, 1)):
             jobs.append((k if vi == 0 else f"{k}~{vi}", s, ctx.seed, ["obs_pure"], opts))
     for k, src in sorted(EXTRA.items()):
         jobs.append((k, src, ctx.seed, ["obs_pure"], opts))
